@@ -59,8 +59,11 @@ def check(run):
         rngs = sorted({dep[1] for c in wb.cells.values() if c[0] != 'v' for dep in wb.deps(c[-1])
                        if dep[0] == 'ref' and (dep[1][1], dep[1][3]) != (dep[1][2], dep[1][4]) and dep[1][1] != 0})
         spill = {(s_, r_ + i_, c_ + j_) for (s_, r_, c_), ct in wb.cells.items() if ct[0] == 'a' for i_ in range(ct[1]) for j_ in range(ct[2])}
-        rngs = [r for r in rngs if all(wb.cells.get(a, ('v',))[0] == 'v' and a not in spill and a not in [x[:3] for x in ov_cells]
-                                       for a in cells_of_ref(r))]
+        # an array formula must lie wholly inside the overridden range or wholly outside it (a part of a spill cannot be set)
+        arects = [{(s_, r_ + i_, c_ + j_) for i_ in range(ct[1]) for j_ in range(ct[2])} for (s_, r_, c_), ct in wb.cells.items() if ct[0] == 'a']
+        rngs = [r for r in rngs if all((wb.cells.get(a, ('v',))[0] in ('v', 'a')) and a not in [x[:3] for x in ov_cells] for a in cells_of_ref(r))
+                and all(not (ar & set(cells_of_ref(r))) or ar <= set(cells_of_ref(r)) for ar in arects)
+                and all(wb.cells.get(a, ('v',))[0] == 'v' or a in spill for a in cells_of_ref(r))]
         if rngs and rnd.random() < 0.6:
             r = rnd.choice(rngs)
             h, w = r[2] - r[1] + 1, r[4] - r[3] + 1
@@ -146,7 +149,7 @@ def check(run):
         wb, R, name, outs = bookgen.range_template(rnd)
         d = wb.to_dict(explicit_blanks=wb.explicit)
         case = {'workbook': {k_: (str(v) if isinstance(v, bookgen.Err) else v) for k_, v in d.items()}, 'stream': 'range-template'}
-        how = rnd.choice((['range', 'sub-range', 'name'] if name else ['range', 'sub-range']) if wb.explicit else (['range', 'name'] if name else ['range']))
+        how = rnd.choice((['range', 'sub-range', 'name'] if name else ['range', 'sub-range']) if (wb.explicit and not wb.has_array) else (['range', 'name'] if name else ['range']))
         rr = R if how != 'sub-range' else (0, 2, 3, 1, 1)
         vals = [[rnd.choice([4, 6, 20, 30, 0, 8.5])] for _ in range(rr[2] - rr[1] + 1)]
         key = wb.name_key(name) if how == 'name' else '%s!%s' % (wb.sheet_id(0), wb.ref_text(rr))
